@@ -224,6 +224,33 @@ let handle (toks : string list) (impl : string list) : string * string =
            | [] -> "fails:-")
         | _ -> "holds") in
     (m, v)
+  | "mintout" ->
+    let variant = int_ c in let cpb = num c in let mvs = num c in
+    let addr = p_addr c in let namelen = num c in let qty = num c in let d = p_dat c in let sr = p_sref c in let coin = num c in
+    let cfg = { c_cpb = cpb; c_max_value_size = mvs; c_max_tx_size = nn "1000000" } in
+    let ma = [[(namelen, qty)]] in
+    (* add_mint_asset_and_output: the given coin; ..._min_required_coin: the output-builder helper; both end in add_output *)
+    let out_r = if variant = 0 then Ok { o_addr = addr; o_coin = coin; o_ma = ma; o_datum = d; o_sref = sr } else helper_output cpb addr ma d sr in
+    let res = (match out_r with Ok o -> (match add_output cfg [] o with Ok l -> Ok l | Err -> Err | Panic -> Panic | OutOfFuel -> OutOfFuel)
+                               | Err -> Err | Panic -> Panic | OutOfFuel -> OutOfFuel) in
+    let m = (match res with
+        | Ok outs ->
+          let b = Buffer.create 64 in
+          Buffer.add_string b (Printf.sprintf "ok %d" (List.length outs));
+          List.iter (fun o -> Buffer.add_string b (Printf.sprintf " %s %s %s" (sn o.o_coin) (sn (out_size o)) (sn (out_value_size o)))) outs;
+          Buffer.contents b
+        | Err -> "err 0"
+        | Panic -> "panic" | OutOfFuel -> "outoffuel") in
+    let v = (match impl with
+        | [] -> "na"
+        | _ :: "none" :: _ -> "holds"
+        | _ :: _n :: rest ->
+          let rec obs3 = function
+            | c' :: s :: v :: r -> { ob_coin = nn c'; ob_size = nn s; ob_vsize = nn v } :: obs3 r
+            | _ -> [] in
+          show_verdict (judge_returned cfg true (obs3 rest) None None (n_of_int 0))
+        | _ -> "fails:-") in
+    (m, v)
   | "txsize" ->
     let mts = num c in
     let cfg = { c_cpb = nn "4310"; c_max_value_size = nn "5000"; c_max_tx_size = mts } in
